@@ -199,8 +199,9 @@ def norm(s, chars=None):
 
 def is_empty(s, trim_spaces=True, chars=None):
     """'Returns true if the string with removed leading and trailing chars is
-    empty.  trimSpaces ... false means checking whether input string is
-    empty.'  (null receiver is empty)"""
+    empty.  trim: true by default, which means string to be trimmed with
+    chars.  false means checking whether input string is empty.'  (null
+    receiver is empty)"""
     if s is None:
         return V(True)
     return V((_strip(s, chars, True, True) if trim_spaces else s) == '')
